@@ -7,7 +7,7 @@ from ..explore_r import Scenario, S, mkcfg, bl, sl, bm
 WIT = ["shocked_fundamental_values", "unshocked_fundamental_values", "mistake_order_placed", "orders_unchanged",
        "order_for_other_market_at_trigger_time", "mistake_order_replaces_hft_order", "disabled_shock", "complete_runs"]
 RULE = ("grid of shock placements (target market, session, trigger time, window length, rate sign, enabled), pairs of shocks "
-        "(overlapping windows, same / different targets and sessions) and shocks next to halt / price-limit rules bound to other "
+        "(overlapping windows, same / different targets and sessions), shocks in sessions without order placement and shocks next to halt / price-limit rules bound to other "
         "markets in both listing orders x all executions "
         "within the deviation bound (activation permutations, menu choices of agents that submit to all markets); fundamental "
         "paths compared with the closed form for every market and time, every accepted order compared with what its agent "
@@ -106,6 +106,19 @@ def both_scenarios():
 
 def multi_scenarios():
     sc = {}
+    # shocks whose window lies in (or crosses into / out of) a session without order placement
+    for target in ("M0", "M1"):
+        for sess, tt, length in ((1, 0, 1), (1, 0, 2), (1, 1, 2), (1, 1, 3), (0, 1, 3)):
+            name = "fshock_noplacement:%s-s%d-t%d-L%d" % (target, sess, tt, length)
+            markets = [dict(name="M0", drift=DRIFT["M0"]), dict(name="M1", drift=DRIFT["M1"], tick=0.5)]
+            ags = [dict(name="A0", menu=MENU, program=[1, 1, 4, 1], markets=["M0", "M1"]),
+                   dict(name="A1", menu=MENU, program=[2, 3, 2, 2], markets=["M0", "M1"])]
+            ev = {"SH": {"class": "FundamentalPriceShock", "target": target, "triggerTime": tt, "priceChangeRate": 0.5, "shockTimeLength": length}}
+            ss = [S(0, 2, True, True, maxNormalOrders=2), S(1, 2, False, False), S(2, 2, True, True, maxNormalOrders=2)]
+            ss[sess]["events"] = ["SH"]
+            sc[name] = Scenario(name, mkcfg(ss, markets=markets, agents=ags, events=ev),
+                                meta=dict(fshocks=[dict(target=target, session=sess, triggerTime=tt, length=length, rate=0.5, enabled=True)],
+                                          initial={"M0": 100.0, "M1": 100.0}, drift=DRIFT))
     # two fundamental shocks with overlapping windows (different targets / the same target), both listing orders
     for ta, tb in (("M0", "M1"), ("M1", "M0"), ("M0", "M0")):
         for sa, sb in ((0, 0), (1, 1), (0, 1)):
